@@ -109,6 +109,19 @@ def run(ck):
             rec.features = {feat}
             extra.append(rec)
         batches.append((-3, False, extra, "typedef int aint8 __attribute__((aligned(8)));\n" + "\n".join(x.text() for x in extra)))
+        # members whose C alignment is above 8 while the Rust type spelled for them is less aligned (vector types -> arrays, over-aligned
+        # scalar typedefs -> plain aliases), after every gap of 1..15 bytes
+        vecs = []
+        for gap in range(1, 16):
+            for nm, decl, feat in (("V", "v4f v", "vector"), ("A", "aint16 v", "over-aligned-typedef16"), ("W", "v4f v[2]", "vector")):
+                if nm == "W" and gap % 4 != 1:
+                    continue
+                rec = e2e.Rec("%s%d" % (nm, gap))
+                rec.members = [{"name": "pre", "decl": "char pre[%d]" % gap, "bitfield": None, "anon": False}, {"name": "v", "decl": decl, "bitfield": None, "anon": False},
+                               {"name": "t", "decl": "char t", "bitfield": None, "anon": False}]
+                rec.features = {feat}
+                vecs.append(rec)
+        batches.append((-4, False, vecs, "typedef float v4f __attribute__((vector_size(16)));\ntypedef int aint16 __attribute__((aligned(16)));\n" + "\n".join(x.text() for x in vecs)))
         batches.append((-2, True, named, "#include <stdint.h>\n#include <stddef.h>\n#include <sys/types.h>\n#include <wchar.h>\n#include <uchar.h>\n#include <signal.h>\n" + "\n".join(x.text() for x in named)))
         for b in range(10 if quick else 150):
             plain = b % 5 != 4 and b % 5 != 3
